@@ -109,7 +109,9 @@ func (kc *Cache[V]) Update(key []byte, fn func(v Entry[V], exists bool) Entry[V]
 	needToEvict := kc.count > kc.max
 	if needToEvict {
 		evicted = kc.evict()
-		added = !bytes.Equal(key, evicted.Key)
+		if evicted != nil {
+			added = !bytes.Equal(key, evicted.Key)
+		}
 	}
 	return evicted, added
 }
@@ -270,6 +272,15 @@ func (kc *Cache[V]) evict() *Entry[V] {
 		if b.len() > kc.minPerBucket {
 			n = i
 			break
+		}
+	}
+	if n < 0 {
+		// every bucket is at or below its minimum: fall back to the farthest non-empty bucket.
+		for i, b := range kc.buckets {
+			if b.len() > 0 {
+				n = i
+				break
+			}
 		}
 	}
 	if n < 0 {
